@@ -246,6 +246,11 @@ def run(ctx):
     if dead:
         raise InfraError("vacuity: actions never taken in MCRtrSocket: %s" % dead)
 
+    if pid in ("C14", "C17"):
+        # the transport loops every PDU goes through (tr_send_all / tr_recv_all): all or error, one deadline per invocation
+        rt = vlib.tlc_model("TrAll", "TrAll.cfg", pid + "-trall", workers=4, timeout=600)
+        cov["model_transport_loops"] = {"spec": "TrAll.tla", "cfg": "TrAll.cfg", **rt.summary(), "checked": "AllOrError OneDeadline InTime",
+                                        "bound_by": "CallsOK monitor (timeouts the client hands to the transport stub, per header / body / PDU written)"}
     if pid == "C08":
         # convergence of the envelope: adversarial prefix, then a correct cache for ever (MCRtrSocketConv.tla)
         rc_ = vlib.tlc_model("MCRtrSocketConv", P["conv_cfg"], pid + "-conv", workers=16, timeout=P["tlc_timeout"], xmx="24g", coverage=True)
